@@ -87,6 +87,18 @@ def herm_case(case):
     r["out"] = "H" if refH else "nonH"
     if isH != refH:
         return {**r, "ok": False, "msg": "is_hermitian disagrees with the matrix for a simplified operator", "expected": refH, "observed": isH, "sig": "herm:test"}
+    # the same test asked of the matrix the operator denotes (sparse as the library hands it out, dense, and a plain copy): the operator and its matrix are Hermitian together
+    from orquestra.quantum.operators import get_sparse_operator
+    sp = get_sparse_operator(simp, n_qubits=n) if len(getattr(simp, "terms", [1])) else None
+    if sp is not None:
+        for kind, mat in (("sparse matrix", sp), ("dense matrix", np.asarray(sp.toarray())), ("reference matrix", np.array(M))):
+            try:
+                mh = bool(is_hermitian(mat))
+            except Exception as e:  # noqa: BLE001
+                return {**r, "ok": False, "msg": "is_hermitian(%s of the operator) raises %s: %s" % (kind, type(e).__name__, str(e)[:80]), "sig": "herm:matrix-raises"}
+            r["ops"] += 1
+            if mh != refH:
+                return {**r, "ok": False, "msg": "is_hermitian(%s) says %s, the operator it belongs to is %sHermitian" % (kind, mh, "" if refH else "not "), "expected": refH, "observed": mh, "sig": "herm:matrix-test"}
     return r
 
 
